@@ -6,6 +6,7 @@ import RNacos.Driver.ConfigDrv
 import RNacos.Driver.NamingDrv
 import RNacos.Driver.IndexDrv
 import RNacos.Driver.LogDrv
+import RNacos.Driver.StoreDrv
 open RNacos.Driver
 
 /-- Generic loop: `# …` lines are echoed and reset the state. -/
@@ -42,6 +43,8 @@ def main (args : List String) : IO UInt32 := do
   | ["config", "--spec"] => loop stdin stdout ({} : ConfigDrv.SpecSt) ConfigDrv.specStep {}; return 0
   | ["naming"] => loop stdin stdout ({} : RNacos.Naming.Naming) NamingDrv.step {}; return 0
   | ["naming", "--spec"] => loop stdin stdout ({} : NamingDrv.SpecSt) NamingDrv.specStep {}; return 0
+  | ["logstore"] => loop stdin stdout ({} : RNacos.LogStore.Store) StoreDrv.step {}; return 0
+  | ["logstore", "--spec"] => loop stdin stdout ({} : StoreDrv.SpecSt) StoreDrv.specStep {}; return 0
   | ["logfile"] => loop stdin stdout ({} : LogDrv.St) LogDrv.step {}; return 0
   | ["logfile", "--spec"] => loop stdin stdout ({} : LogDrv.SpecSt) LogDrv.specStep {}; return 0
   | ["indexfile"] => loop stdin stdout ({} : IndexDrv.St) IndexDrv.step {}; return 0
